@@ -120,6 +120,20 @@ func init() {
 						"Kind" + strings.ToUpper(name[4:]): M{"type": "string", "enum": []any{"k" + name[4:] + "1", "k" + name[4:] + "2"}}}}
 				files = append(files, f)
 			}
+			// one output file for all schemas, each with an IDENTICAL definition under one name (a string enum and an object):
+			// equal same-named definitions are one declaration
+			sharedDefs := onePkg && n >= 2 && !sameStem && c.R.P(0.5)
+			if sharedDefs {
+				for i := range files {
+					files[i].out = "out/all/all.go"
+					defs := files[i].schema["$defs"].(M)
+					defs["SharedKind"] = M{"type": "string", "enum": []any{"s1", "s2", "s3"}}
+					defs["SharedBox"] = M{"type": "object", "properties": M{"w": M{"type": "integer"}}}
+					props := files[i].schema["properties"].(M)
+					props["sharedKind"] = M{"$ref": "#/$defs/SharedKind"}
+					props["sharedBox"] = M{"$ref": "#/$defs/SharedBox"}
+				}
+			}
 			// name coincidence: a definition of an earlier file is named like a later file's root type and both go to
 			// the same output.  Which of the two keeps the bare name is the listed finding K15; what is judged here
 			// is that every DEFINITION of every file is still emitted exactly once, in every argument order.
@@ -187,7 +201,7 @@ func init() {
 			}
 			var ref map[string]string
 			var refWD string
-			shape := fmt.Sprintf("n=%d onePkg=%v coincide=%v sameStem=%v refs=%s", n, onePkg, coincide, sameStem, refPattern)
+			shape := fmt.Sprintf("n=%d onePkg=%v coincide=%v sameStem=%v shared=%v refs=%s", n, onePkg, coincide, sameStem, sharedDefs, refPattern)
 			replayBase := M{"kind": "cli-multi", "files": func() map[string]string {
 				m := map[string]string{}
 				for _, f := range files {
@@ -230,6 +244,18 @@ func init() {
 						if fails <= 3 {
 							replayBase["order"] = perm
 							c.Fail("oracle", fmt.Sprintf("definition %s of %s is declared %d time(s), in %q; expected once in %q (argument order %v)", dn, f.id, declared, where, f.out, perm), replayBase, false)
+						}
+					}
+				}
+				if sharedDefs {
+					for _, dn := range []string{"SharedKind", "SharedBox"} {
+						k := len(regexp.MustCompile(`(?m)^type `+dn+`(_\d+)? `).FindAllString(outs["out/all/all.go"], -1))
+						if k != 1 {
+							fails++
+							if fails <= 3 {
+								replayBase["order"] = perm
+								c.Fail("oracle", fmt.Sprintf("the definition %s, identical in all %d files of one output, is declared %d times (argument order %v)", dn, n, k, perm), replayBase, false)
+							}
 						}
 					}
 				}
@@ -313,6 +339,13 @@ func init() {
 					"absolute":  func(wd, p string) string { return filepath.Join(wd, p) },
 					"detour": func(wd, p string) string {
 						return filepath.Dir(p) + "/../" + filepath.Base(filepath.Dir(p)) + "/" + filepath.Base(p)
+					},
+					// … and MIXED: a file named absolutely on the command line while the references to it are relative
+					"mixed": func(wd, p string) string {
+						if len(p)%2 == 0 {
+							return filepath.Join(wd, p)
+						}
+						return "./" + p
 					},
 				} {
 					if sn == "detour" && si%2 == 0 {
